@@ -8,7 +8,6 @@
 import Manticore.Model.C02
 import Manticore.Lemmas.C02Bits
 import Manticore.Lemmas.C02Resp
-import Manticore.Props.C02.Consts
 namespace Manticore.C02
 open Manticore Manticore.RExpr
 
